@@ -121,7 +121,7 @@ def run(ctx):
     vlib.audit(ctx, 'NbdimeProofs', THEOREMS)
     rng = ctx.rng
     bad = builtin_correspondence(ctx, 150 if ctx.tier == 'quick' else 3000)
-    for t in range(90 if ctx.tier == 'quick' else 1500):
+    for t in range(330 if ctx.tier == 'quick' else 3000):
         b, l, r, kinds = gen_nb.any_triple(rng)
         for md in ([mergelib.RENDERERS[t % 3]] if ctx.tier == 'quick' else mergelib.RENDERERS):
             check_triple(ctx, b, l, r, md, kinds)
